@@ -108,20 +108,21 @@ def machinery_check(r, what):
     raise common.MachineryError("TLC failed on %s (rc=%s):\n%s" % (what, r.rc, tail))
 
 
-def validate_traces(module, cfg, traces, extra_batch=None, workers=16, timeout=3600, keep=None):
-    """Writes a batch of traces, runs the trace spec, returns (verdicts, TlcResult).
+MAX_BATCH_BYTES = int(os.environ.get("BPVERIF_MAX_BATCH", 24 * 1024 * 1024))     # one JSON document per TLC run; larger batches are split
 
-    verdicts[k] = (ok: bool, why: str) for trace k (0-based).  A missing verdict is a
-    machinery failure, never a pass."""
+
+def _validate_chunk(module, cfg, blobs, extra_batch, workers, timeout, keep):
     fd, path = tempfile.mkstemp(prefix="bpverif-traces-", suffix=".json",
                                 dir=os.environ.get("TMPDIR", "/tmp"))
     os.close(fd)
-    batch = {"traces": traces}
-    if extra_batch:
-        batch.update(extra_batch)
     try:
         with open(path, "w") as f:
-            json.dump(batch, f, separators=(",", ":"))
+            f.write('{"traces":[')
+            f.write(",".join(blobs))
+            f.write("]")
+            for k, v in (extra_batch or {}).items():
+                f.write(",%s:%s" % (json.dumps(k), json.dumps(v, separators=(",", ":"))))
+            f.write("}")
         r = run_tlc(module, cfg, env={"TRACE_FILE": path}, workers=workers, timeout=timeout)
         if keep:
             shutil.copy(path, keep)
@@ -129,14 +130,54 @@ def validate_traces(module, cfg, traces, extra_batch=None, workers=16, timeout=3
         if os.path.exists(path):
             os.remove(path)
     machinery_check(r, module)
+    return r
+
+
+def validate_traces(module, cfg, traces, extra_batch=None, workers=16, timeout=3600, keep=None):
+    """Writes the traces in batches, runs the trace spec on each, returns (verdicts, TlcResult).
+
+    verdicts[k] = (ok: bool, why: str) for trace k (0-based).  A missing verdict is a
+    machinery failure, never a pass.  The returned TlcResult sums the runs; the trace numbers in
+    its V| and R| lines are those of the whole list."""
+    blobs = [json.dumps(t, separators=(",", ":")) for t in traces]
+    chunks, cur, size = [], [], 0
+    for k, b in enumerate(blobs):
+        if cur and size + len(b) > MAX_BATCH_BYTES:
+            chunks.append(cur)
+            cur, size = [], 0
+        cur.append(k)
+        size += len(b)
+    if cur or not chunks:
+        chunks.append(cur)
+    total = TlcResult()
+    total.ok = True
     verdicts = {}
-    for s in r.lines:
-        if s.startswith("V|"):
-            parts = s.split("|", 3)
-            verdicts[int(parts[1]) - 1] = (parts[2] == "1", parts[3] if len(parts) > 3 else "")
-    if len(verdicts) != len(traces):
-        missing = [k for k in range(len(traces)) if k not in verdicts][:5]
-        tail = "\n".join(r.out.splitlines()[-30:])
-        raise common.MachineryError("%s: %d verdicts for %d traces (missing e.g. %s)\n%s"
-                                    % (module, len(verdicts), len(traces), missing, tail))
-    return [verdicts[k] for k in range(len(traces))], r
+    for idxs in chunks:
+        r = _validate_chunk(module, cfg, [blobs[k] for k in idxs], extra_batch, workers, timeout, keep)
+        total.rc = r.rc
+        total.out += r.out
+        total.states += r.states
+        total.generated += r.generated
+        total.depth = max(total.depth, r.depth)
+        total.ok = total.ok and r.ok
+        total.violated += r.violated
+        total.wall += r.wall
+        for name, n in r.coverage.items():
+            total.coverage[name] = total.coverage.get(name, 0) + n
+        got = 0
+        for s in r.lines:
+            if s.startswith("V|") or s.startswith("R|"):
+                parts = s.split("|", 2)
+                g = idxs[int(parts[1]) - 1]
+                s = "%s|%d|%s" % (parts[0], g + 1, parts[2])
+                if parts[0] == "V":
+                    rest = parts[2].split("|", 1)
+                    verdicts[g] = (rest[0] == "1", rest[1] if len(rest) > 1 else "")
+                    got += 1
+            total.lines.append(s)
+        if got != len(idxs):
+            missing = [k for k in idxs if k not in verdicts][:5]
+            tail = "\n".join(r.out.splitlines()[-30:])
+            raise common.MachineryError("%s: %d verdicts for %d traces (missing e.g. %s)\n%s"
+                                        % (module, got, len(idxs), missing, tail))
+    return [verdicts[k] for k in range(len(traces))], total
